@@ -41,6 +41,10 @@ def _digest_formula(f):
     def h(x):
         return hashlib.sha1(x).hexdigest()[:12]
 
+    def fb(a):
+        # canonical bytes of a float array: rounded, and -0.0 folded into 0.0
+        return (np.round(np.asarray(a, dtype=float), 8) + 0.0).tobytes()
+
     st = stored(f.linear)
     M = f.linear
     if hasattr(M, "S"):
@@ -49,12 +53,12 @@ def _digest_formula(f):
     else:
         csr = M.tocsr()
         vals = [float(csr[i, j]) for i, j in st] if len(st) < 20000 else []
-    nzv = [(i, j, round(v, 8)) for (i, j), v in zip(st, vals) if v != 0]
+    nzv = [(i, j, round(v, 8) + 0.0) for (i, j), v in zip(st, vals) if v != 0]
     d = {"shape": list(M.shape), "A": h(repr(nzv).encode()), "stored": h(repr(st).encode()),
-         "const": h(np.round(np.asarray(f.const, dtype=float), 8).tobytes()),
-         "sense": h(np.asarray(f.sense, dtype=float).tobytes()), "vtype": h("".join(str(v) for v in f.vtype).encode()),
-         "ub": h(np.asarray(f.ub, dtype=float).tobytes()), "lb": h(np.asarray(f.lb, dtype=float).tobytes()),
-         "obj": h(np.round(np.asarray(f.obj, dtype=float).reshape(-1), 8).tobytes()),
+         "const": h(fb(f.const)),
+         "sense": h(fb(f.sense)), "vtype": h("".join(str(v) for v in f.vtype).encode()),
+         "ub": h(fb(f.ub)), "lb": h(fb(f.lb)),
+         "obj": h(fb(np.asarray(f.obj, dtype=float).reshape(-1))),
          "qmat": h(repr([[int(i) for i in q] for q in getattr(f, "qmat", [])]).encode()),
          "xmat": h(repr([[int(i) for i in q] for q in getattr(f, "xmat", [])]).encode()),
          "lmi": len(getattr(f, "lmi", []) or [])}
@@ -63,8 +67,9 @@ def _digest_formula(f):
 
 
 # the case-study tests build models with thousands of columns: far beyond what dense proxies are meant for
-DEFAULT_TESTS = ("test_ambiguity.py test_dro_affine.py test_dro_convex.py test_dro_dvar.py test_dro_model.py "
-                 "test_expcone_dro.py test_expcone_ro.py test_lp_model.py test_ro_affine.py test_ro_convex.py "
+# (test_ro_affine / test_dro_affine use 3-d arrays of ~100 entries per operand: minutes per test on dense object proxies)
+DEFAULT_TESTS = ("test_ambiguity.py test_dro_convex.py test_dro_dvar.py test_dro_model.py "
+                 "test_expcone_dro.py test_expcone_ro.py test_lp_model.py test_ro_convex.py "
                  "test_ro_dvar.py test_ro_ldr.py test_ro_model.py test_ro_rvar.py test_socp_model.py")
 
 
